@@ -38,14 +38,16 @@ def _flat(idx, shape):
 
 
 class Treeifier:
-    def __init__(self, coef_index, const_index, arg_pos=None):
+    def __init__(self, coef_index, const_index, arg_pos=None, complex_mode=False):
         self.arg_pos = arg_pos or {}
+        self.complex_mode = complex_mode
         self.coef_index = coef_index      # ufl Coefficient -> position in the kernel's w
         self.const_index = const_index    # ufl Constant -> position in c
         self.aleaves, self.cleaves = [], []
         self._akey, self._ckey = {}, {}
         self.uses_normal = False
         self.has_cond = False
+        self.ftabs = []            # transcendental function nodes: {"fn": name, "args": [subtree, ...]}
         self.max_deriv = 0
         self.nodes = 0
 
@@ -118,6 +120,28 @@ class Treeifier:
             return {"t": "detJ", "r": r}
         raise OutOfModel(f"terminal {type(e).__name__} is outside the model")
 
+    @staticmethod
+    def _mathfn(e):
+        """(name, operands) of a transcendental function node (evaluated in floating point by the harness on
+        exact rational arguments and handed to Fem.tla as a per-point table), else None."""
+        import ufl.mathfunctions as mf
+        simple = {mf.Exp: "exp", mf.Ln: "ln", mf.Cos: "cos", mf.Sin: "sin", mf.Tan: "tan", mf.Cosh: "cosh",
+                  mf.Sinh: "sinh", mf.Tanh: "tanh", mf.Acos: "acos", mf.Asin: "asin", mf.Atan: "atan", mf.Erf: "erf"}
+        for cls, name in simple.items():
+            if type(e) is cls:
+                return name, e.ufl_operands
+        if isinstance(e, mf.Atan2):
+            return "atan2", e.ufl_operands
+        for cls, name in ((mf.BesselJ, "bessel_j"), (mf.BesselY, "bessel_y"), (mf.BesselI, "bessel_i"), (mf.BesselK, "bessel_k")):
+            if isinstance(e, cls):
+                return name, e.ufl_operands
+        if isinstance(e, uc.Power):
+            p = e.ufl_operands[1]
+            if isinstance(p, (uc.IntValue, uc.FloatValue, uc.ScalarValue)) and float(p.value()) != int(p.value()) \
+                    and float(p.value()) != 0.5:
+                return "pow", e.ufl_operands
+        return None
+
     # operators --------------------------------------------------------
     def cond(self, e):
         self.has_cond = True
@@ -135,6 +159,14 @@ class Treeifier:
 
     def tree(self, e):
         self.nodes += 1
+        fn = self._mathfn(e)
+        if fn is None and self.complex_mode and isinstance(e, uc.Sqrt):
+            fn = ("sqrt", e.ufl_operands)            # complex square root: libm, not the exact perfect-square node
+        if fn is not None:
+            name, operands = fn
+            args = [self.tree(o) for o in operands]
+            self.ftabs.append({"fn": name, "args": args})
+            return {"t": "ftab", "id": len(self.ftabs)}
         if isinstance(e, uc.Zero):
             return _num(0)
         if isinstance(e, uc.ComplexValue):
